@@ -109,6 +109,9 @@ HARNESSES = [
                        dict(Q, FEAT_64BIT=0, FEAT_CSUM=1, REF_MAXWALK=4, **T),
                        dict(Q, FEAT_64BIT=0, FEAT_CSUM=1, FEAT_ASYNC=1, REF_MAXWALK=4, **T),
                        dict(Q, FEAT_64BIT=0, FEAT_CSUM=2, REF_MAXWALK=4),
+                       # async_commit: the scan looks past a checksum-invalid commit block, the log still ends there
+                       dict(Q, FEAT_64BIT=0, FEAT_CSUM=2, FEAT_ASYNC=1, REF_MAXWALK=4),
+                       dict(Q, FEAT_64BIT=1, FEAT_CSUM=3, FEAT_ASYNC=1, REF_MAXWALK=4, **T),
                        dict(Q, FEAT_64BIT=1, FEAT_CSUM=3, REF_MAXWALK=4, **T),
                        dict(Q, FEAT_64BIT=0, REF_MAXWALK=6, **T),
                        dict(FEAT_64BIT=0, REF_MAXWALK=4, **T),          # s_first symbolic
@@ -156,7 +159,10 @@ HARNESSES = [
          configs=cfgs([dict(Q, FEAT_64BIT=0, START=1, B=32, NFS=3, REF_MAXWALK=3, REF_MAXREV=1, REF_MAXRB=1, DEBUGFS=None, _unwindset=rm_uw(1)),
                        dict(Q, FEAT_64BIT=0, START=1, B=32, NFS=3, REF_MAXWALK=3, REF_MAXREV=1, REF_MAXRB=1, _unwindset=rm_uw(1), **T),
                        dict(Q, FEAT_64BIT=0, START=3, B=40, NFS=3, REF_MAXWALK=4, REF_MAXREV=2, REF_MAXRB=1, _unwindset=rm_uw(2), **T),
-                       dict(Q, FEAT_64BIT=1, START=1, B=32, NFS=3, REF_MAXWALK=3, REF_MAXREV=1, REF_MAXRB=1, _unwindset=rm_uw(1), **T)]),
+                       dict(Q, FEAT_64BIT=1, START=1, B=32, NFS=3, REF_MAXWALK=3, REF_MAXREV=1, REF_MAXRB=1, _unwindset=rm_uw(1), **T),
+                       # checksummed + async_commit, whole three-pass function (64-byte blocks: a commit header must fit)
+                       dict(Q, FEAT_64BIT=0, FEAT_CSUM=2, FEAT_ASYNC=1, START=1, B=64, NFS=3, REF_MAXWALK=3, REF_MAXREV=1, REF_MAXRB=1, _unwindset=rm_uw(1), **T),
+                       dict(Q, FEAT_64BIT=0, FEAT_CSUM=1, FEAT_ASYNC=1, START=1, B=64, NFS=3, REF_MAXWALK=3, REF_MAXREV=1, REF_MAXRB=1, _unwindset=rm_uw(1), **T)]),
          unwind=3, cbmc_flags=FS, backends=["kissat", "default"], cap_quick=300,
          bound="journal of 6 blocks of 40 bytes, filesystem of 3 blocks, every byte symbolic; log walk <= 3 header blocks; <= 1 revoke "
                "block with 1 record; s_start 1; e2fsck and DEBUGFS flavours"),
